@@ -97,7 +97,10 @@ def run(tier):
     if C.ob("C06/anchor", pk, pf is not None, "not found"):
         cs = [facts.callee(c) for c in facts.calls(pf["body"])]
         C.ob("C06/lossy-paragraph-reader", "lossy Paragraph::from_str", "core::str::<impl str>::parse" in cs or lp.ENTRY_KEY in cs, "must go through the lossy document reader (calls %s)" % [c.split("::")[-1] for c in cs], pf["sp"])
-    C.assumptions += ["agreement is decided on well-formed documents (the oracle grammar); for arbitrary texts accepted by both readers only the shared lexer and the per-role reading are decided",
-                      "lossless Entry::value joins VALUE texts with newline (validated in C03)"]
+    # what the lossless side *reports* for the tokens it stored: the accessor pipelines (key/value/get/...) on all
+    # short child sequences, with raw value texts (C03's engine under this property's prefix)
+    import c03
+    c03.check_accessors(F, C, rule_prefix="C06/lossless-accessors")
+    C.assumptions += ["agreement is decided on well-formed documents (the oracle grammar); for arbitrary texts accepted by both readers only the shared lexer and the per-role reading are decided"]
     return C.finish("Both readers are explored in product with the same well-formed token grammar whose transitions carry roles (field name, value line, paragraph break...). "
                     "Monitors check that each reader reacts to every role in the way that yields the same paragraphs, names and value lines; Err/panic outcomes are violations.")
